@@ -55,6 +55,7 @@ type frame struct {
 	locals           []value
 	defers           *deferred
 	result           value
+	libctx           int8 // cached answer of libContext: 0 unknown, 1 yes, -1 no
 	panicking        bool
 	panic            interface{}
 	phitemps         []value // temporaries for parallel phi assignment
@@ -134,6 +135,9 @@ func (r *run) global(g *ssa.Global) *value {
 func globalZeroOK(g *ssa.Global) bool {
 	switch g.String() {
 	case "context.goroutines", "sync.expunged":
+		return true
+	case "internal/cpu.X86", "internal/cpu.ARM64", "internal/cpu.ARM", "internal/cpu.S390X", "internal/cpu.PPC64", "internal/cpu.MIPS64X":
+		// no optional CPU feature: every library takes its portable path
 		return true
 	}
 	return false
